@@ -91,6 +91,9 @@ fn options(dir: &str, o: &Value) -> Options {
 	let mut opts = opts.with_l0_stall_threshold(l0.max(2) * 4).with_memtable_stall_threshold(4);
 	if versioning {
 		opts = opts.with_versioning(true, 0).with_vlog_value_threshold(0);
+		if o["index"].as_bool().unwrap_or(false) {
+			opts = opts.with_versioned_index(true);
+		}
 	} else if vlog {
 		opts = opts.with_vlog_value_threshold(256).with_vlog_max_file_size(memtable as u64);
 	}
